@@ -39,3 +39,6 @@ print(f"baseline: {len(base)-len(missing)}/{len(base)} stable tests pass (guard 
 for t in missing[:50]: print("  MISSING", t)
 sys.exit(1 if missing else 0)
 PY
+rc=$?
+rm -rf "${REPO:-/repo}/event/test_dbpath"
+exit $rc
